@@ -1,7 +1,7 @@
 """C07 Objects survive dump/load wherever they occur, for every supported class shape."""
 import ast
 from vlib.model import AnalysisError, dump, kwarg, call_name
-from vlib.cfg import cfg_of, node_calls
+from vlib.cfg import cfg_of, node_calls, node_exprs
 from vlib.flow import dominators
 from vlib import prov, q, shape
 from rules import common
@@ -21,15 +21,50 @@ META = {
         "proxy and transport keep the caller's Config object itself, so a class registered in its local table later is seen, and "
         "every constructor receiving a config hands that object to the package constructors it calls (pooled server, CGI handler, transports); "
         "C07.8 the class instantiated by load is the entry of the caller's class table or the attribute read from the module imported in that "
-        "very call (no remembered class objects: the class currently bound to the name is the one instantiated)."),
+        "very call (no remembered class objects: the class currently bound to the name is the one instantiated).; C07.9 (imported C15.3) the type tables that decide which field values are dumped equal the specification (None, bool, numbers, strings, containers)"),
     "does_not_decide": "equality of the reloaded fields for generated class shapes, importability of the emitted class "
                        "name, enum/Decimal value fidelity (value-level round trip over a space of programs).",
-    "rules": {"C07.1": "provenance of the classes argument at recursive call sites", "C07.2": "call-graph / loop structure",
+    "rules": {"C07.9": "imported C15.3", "C07.1": "provenance of the classes argument at recursive call sites", "C07.2": "call-graph / loop structure",
               "C07.3": "shape interpreter on _slots_finder", "C07.4": "provenance of config arguments", "C07.5": "dominating isinstance branch of each constructor call",
               "C07.6": "sibling agreement Config.__init__/copy", "C07.7": "provenance of the stored config",
               "C07.8": "provenance of the instantiated class object"},
     "assumptions": ["Python's class-private mangling is '_' + class name stripped of leading underscores + name"],
 }
+
+
+def rule_c07_7(ck):
+    prog = ck.prog
+    # ---- C07.7 long-lived objects keep the caller's Config object itself (not a snapshot) ---------------------------------
+    n7 = 0
+    for (mod, qual, field) in (("SimpleJSONRPCServer", "SimpleJSONRPCDispatcher.__init__", "json_config"),
+                               ("SimpleJSONRPCServer", "SimpleJSONRPCServer.__init__", "json_config"),
+                               ("jsonrpc", "ServerProxy.__init__", "_config"), ("jsonrpc", "TransportMixIn.__init__", "_config")):
+        fi = prog.func(mod, qual)
+        gi = cfg_of(fi)
+        stores = [n for n in gi.live_nodes() if n.kind == "stmt" and isinstance(n.ast, ast.Assign) and any(dump(t) == "self." + field for t in n.ast.targets)]
+        if not stores and qual == "SimpleJSONRPCServer.__init__":
+            # inherited from the dispatcher constructor, which must then receive the very config
+            calls = [(n, c) for n in gi.live_nodes() for c in node_calls(n) if dump(c.func) == "SimpleJSONRPCDispatcher.__init__"]
+            okk = bool(calls) and prov.origin(gi, calls[0][0], calls[0][1].args[2]) == ("param", "config") if calls and len(calls[0][1].args) > 2 else False
+            n7 += 1
+            ck.require(okk, "C07.7", "%s: config handed to the dispatcher constructor" % q.fn(fi), "Param(config) itself",
+                       "the server does not keep the caller's Config object", q.loc(fi, fi.node))
+            continue
+        if not stores:
+            ck.bad("C07.7", "%s: self.%s = config" % (q.fn(fi), field),
+                   "the constructor does not keep the configuration it is given in self.%s (objects of this class, and of the classes that "
+                   "rely on this constructor, have no or a foreign configuration)" % field, q.loc(fi, fi.node))
+        for n in stores:
+            n7 += 1
+            t = prov.origin(gi, n, n.ast.value)
+            ck.require(t == ("param", "config"), "C07.7", "%s: self.%s = config" % (q.fn(fi), field), "the caller's Config object itself",
+                       "self.%s is bound to %s instead of the Config object given by the caller: classes / handlers registered on that Config after "
+                       "construction (config.classes.add(...)) are not seen by this object" % (field, prov.show(t)), q.loc(fi, n))
+    if n7 < 3:
+        raise AnalysisError("anchor vanished: config stores of the long-lived objects (found %d)" % n7)
+    common.check_config_forwarding(ck, "C07.7")
+    common.check_config_defaults(ck, "C07.7", ("use_jsonclass", "serialize_method", "ignore_attribute"))
+    ck.floor("C07.7", 9)
 
 
 def check(ck):
@@ -264,6 +299,24 @@ def check(ck):
         ck.require(not problems, "C07.5", "%s: object with a serialisation method (%s `%s`)" % (q.fn(fdump), how, mname),
                    "{'__jsonclass__': [name, params], **attrs} from one call of obj.%s()" % mname,
                    "dumping an object whose class defines the serialisation method `%s` (%s): %s" % (mname, how, "; ".join(problems)), q.loc(fdump, fdump.node))
+    # writer / reader agreement on the class name: dump writes <module>.<cls.__name__>, LocalClasses.add registers under
+    # cls.__name__ and load reads the module attribute of that name (a __qualname__ such as Outer.Inner is neither)
+    name_attrs = set()
+    for n in gd.live_nodes():
+        for e in node_exprs(n):
+            for sub_ in ast.walk(e):
+                if isinstance(sub_, ast.Attribute) and sub_.attr in ("__name__", "__qualname__") and isinstance(sub_.value, (ast.Attribute, ast.Call)) and (
+                        dump(sub_.value) in ("obj.__class__", "type(obj)")):
+                    name_attrs.add(sub_.attr)
+    fadd = prog.func("config", "LocalClasses.add")
+    reg_attrs = set(sub_.attr for sub_ in ast.walk(fadd.node) if isinstance(sub_, ast.Attribute) and sub_.attr in ("__name__", "__qualname__"))
+    if not name_attrs or not reg_attrs:
+        raise AnalysisError("anchor vanished: the class-name attribute in jsonclass.dump / LocalClasses.add (%s / %s)" % (sorted(name_attrs), sorted(reg_attrs)))
+    ck.require(name_attrs == set(["__name__"]) and reg_attrs == set(["__name__"]), "C07.8", "jsonclass.dump / config.LocalClasses.add: class name",
+               "both use cls.__name__",
+               "dump names the class by %s while the class table registers it by %s and load reads the module attribute of that name: a class whose "
+               "__qualname__ differs from its __name__ (defined inside a function or another class) cannot be loaded back"
+               % (sorted(name_attrs), sorted(reg_attrs)), q.loc(fdump, fdump.node))
     dgd = dominators(gd)
     for fn_, want in (("utils.is_decimal", "[str(obj)]"), ("utils.is_enum", "[obj.value]")):
         region = [m for m in gd.live_nodes() if any(gd.nodes[i].kind == "branch" and gd.nodes[i].polarity and isinstance(gd.nodes[i].test, ast.Call)
@@ -281,37 +334,12 @@ def check(ck):
                    "%s objects are dumped with constructor arguments %s instead of %s" % (fn_[9:], sorted(exprs), want), q.loc(fdump, region[0]))
     ck.floor("C07.5", 6)
 
-    # ---- C07.7 long-lived objects keep the caller's Config object itself (not a snapshot) ---------------------------------
-    n7 = 0
-    for (mod, qual, field) in (("SimpleJSONRPCServer", "SimpleJSONRPCDispatcher.__init__", "json_config"),
-                               ("SimpleJSONRPCServer", "SimpleJSONRPCServer.__init__", "json_config"),
-                               ("jsonrpc", "ServerProxy.__init__", "_config"), ("jsonrpc", "TransportMixIn.__init__", "_config")):
-        fi = prog.func(mod, qual)
-        gi = cfg_of(fi)
-        stores = [n for n in gi.live_nodes() if n.kind == "stmt" and isinstance(n.ast, ast.Assign) and any(dump(t) == "self." + field for t in n.ast.targets)]
-        if not stores and qual == "SimpleJSONRPCServer.__init__":
-            # inherited from the dispatcher constructor, which must then receive the very config
-            calls = [(n, c) for n in gi.live_nodes() for c in node_calls(n) if dump(c.func) == "SimpleJSONRPCDispatcher.__init__"]
-            okk = bool(calls) and prov.origin(gi, calls[0][0], calls[0][1].args[2]) == ("param", "config") if calls and len(calls[0][1].args) > 2 else False
-            n7 += 1
-            ck.require(okk, "C07.7", "%s: config handed to the dispatcher constructor" % q.fn(fi), "Param(config) itself",
-                       "the server does not keep the caller's Config object", q.loc(fi, fi.node))
-            continue
-        if not stores:
-            ck.bad("C07.7", "%s: self.%s = config" % (q.fn(fi), field),
-                   "the constructor does not keep the configuration it is given in self.%s (objects of this class, and of the classes that "
-                   "rely on this constructor, have no or a foreign configuration)" % field, q.loc(fi, fi.node))
-        for n in stores:
-            n7 += 1
-            t = prov.origin(gi, n, n.ast.value)
-            ck.require(t == ("param", "config"), "C07.7", "%s: self.%s = config" % (q.fn(fi), field), "the caller's Config object itself",
-                       "self.%s is bound to %s instead of the Config object given by the caller: classes / handlers registered on that Config after "
-                       "construction (config.classes.add(...)) are not seen by this object" % (field, prov.show(t)), q.loc(fi, n))
-    if n7 < 3:
-        raise AnalysisError("anchor vanished: config stores of the long-lived objects (found %d)" % n7)
-    common.check_config_forwarding(ck, "C07.7")
-    common.check_config_defaults(ck, "C07.7", ("use_jsonclass", "serialize_method", "ignore_attribute"))
-    ck.floor("C07.7", 9)
+    rule_c07_7(ck)
 
     # ---- C07.6 the per-request configuration copy keeps the serialisation settings ------------------------
     common.check_config_copy(ck, "C07.6", only=("serialize_method", "ignore_attribute", "serialize_handlers", "classes", "use_jsonclass"))
+
+    # ---- C07.9 type tables (shared with C15.3) ---------------------------------------------------------------------------
+    from rules import c15 as _c15
+    common.import_rules(ck, _c15.rule_c15_3, {"C15.3": "C07.9"})
+    ck.floor("C07.9", 8)
